@@ -17,13 +17,19 @@ var All = map[string]func(*Ctx){
 	"C01": seq(C01, (*Ctx).c12OTP, (*Ctx).c12Recovery, (*Ctx).hasherPassThrough, (*Ctx).smsInvariant, func(c *Ctx) {
 		c.flushUnmodified("C01.queue")
 		c.presenceRule("C01.presence")
+		c.oauthPIDCodec("C01.oauth-pid")
 	}, withExplanation(C05)),
 	"C02": seq(C02, (*Ctx).c12Recovery, (*Ctx).c12SMS, (*Ctx).c01Pending, func(c *Ctx) {
 		c.beforeHandlersIssueNothing("C02.before-no-issue")
 		c.localizeFallback("C02.status-text")
 		c.halfAuthUpgradeGated("C02.halfauth-upgrade")
+		c.registryStable("C02.registry")
 	}),
-	"C03": seq(C03, func(c *Ctx) { c.ctxUserFirst("C03.subject") }),
+	"C03": seq(C03, func(c *Ctx) {
+		c.ctxUserFirst("C03.subject")
+		c.eventsCallShape("C03")
+		c.registryStable("C03.registry")
+	}),
 	"C04": seq(C04, func(c *Ctx) {
 		c.vetoOnlyAfterCheck("C04.veto-after-check")
 		c.lockEnforced("C04.lock-enforced")
@@ -31,9 +37,12 @@ var All = map[string]func(*Ctx){
 		c.successResets("C04.success-resets")
 		c.afterHandlersUnconditional("C04.after-unconditional")
 		c.utcInstants("C04.utc")
+		c.registryStable("C04.registry")
+		c.ctxUserFirst("C04.subject")
 	}),
 	"C05": seq(C05, func(c *Ctx) {
 		c.moduleCopied("C05.instance")
+		c.readerVerbatim("C05.reader")
 		c.secretEntropy("C05.entropy")
 		c.utcInstants("C05.utc")
 		c.supersededOnEveryRequest("C05.supersede-always")
@@ -92,6 +101,9 @@ var All = map[string]func(*Ctx){
 		c.lockedResponseFixed("C16.locked-response")
 		c.ctxParentIsRequest("C16.ctx-parent")
 		c.beforeHandledHonoured("C16.before-handled")
+		c.lockWiring("C16.lock-wire")
+		c.lockAnswersLocked("C16.locked-answer")
+		c.recoverStartQuiet("C16.recover-quiet")
 		if uls := c.P.FuncOpt("(*ab/lock.Lock).updateLockedState"); uls != nil {
 			c.lockEveryAttempt("C16.every-attempt", uls)
 		}
@@ -100,7 +112,12 @@ var All = map[string]func(*Ctx){
 		}
 	}),
 	"C17": seq(C17, (*Ctx).hasherPassThrough, (*Ctx).c19Whitelist),
-	"C18": seq(C18, func(c *Ctx) { c.readStateErrors("C18.read-err") }),
+	"C18": seq(C18, func(c *Ctx) {
+		c.readStateErrors("C18.read-err")
+		c.flushSites("C18.flush-sites")
+		c.errorPathsPutNothing("C18.error-path-puts")
+		c.storeBeforeSession("C18.store-before-session")
+	}),
 	"C19": seq(C19, (*Ctx).hasherPassThrough),
 	"C20": seq(C20, func(c *Ctx) {
 		c.moduleCopied("C20.instance")
